@@ -34,7 +34,7 @@ def run(repo, R):
     drivers, bounds = run_assembly(repo, R, R.tier)
     for kind in ("one", "two_symm"):
         d = drivers[kind]
-        rel = [(k, v) for k, v in d.fails.items() if k[0] in ("A2/A3", "A4", "A-TYPE", "A1")]
+        rel = [(k, v) for k, v in d.fails.items() if k[0] in ("A2/A3", "A3-TYPE", "A4", "A-TYPE", "A1")]
         for (rule, method, _n), (case, count, where, msg, expected, found) in rel:
             R.fail("PIPE", d.site(method), msg[:150], f"{msg}  [first case: {case}; {count} case(s)]",
                    where=where or f"{d.cls.module.relpath}:{d.cls.lookup(method).node.lineno}", expected=expected, found=found)
